@@ -21,11 +21,34 @@
  *   then " | end ~[..]" = destructor calls of parsec_info_destructor (only when the listed ids are
  *   pairwise distinct: the destructor is not meant to survive duplicates), or " | <crash>"
  *   when the child running the case died (a NULL dereference in parsec_info_get is a possible
- *   observation of the unchanged code). */
+ *   observation of the unchanged code).
+ *
+ * T-sched case:  sched N c0:d0 .. cN-1:dN-1 | ops of thread 0 / ops of thread 1 / ... | schedule
+ *   N infos are registered (info i: constructor data ci (0 none, 1 returns NULL), destructor flag di),
+ *   then ONE object array is created (so no resize happens) and each thread, a cosched coroutine,
+ *   runs its ops  T:i:v:old  G:i  S:i:v  on (that array, id of info i), yielding between two ops.
+ *   The constructor returns a fresh object per call: 0xC000000000000000 + c*65536 + (thread+1)*256 + k
+ *   (k-th call of that thread).  Scheduling points = the parsec_atomic_* operations (interpose.h).
+ *   out:  t0: T=<ret> S=<old> G=<ret>,<constructed or ->,[destructed,..] ... | t1: ... | slots: s0,s1,..
+ *         | steps: .. | spins: ..  [<deadlock>]
+ *   With -DVERIF_RACE (race exploration, clang -fsanitize=thread + tsanrt.c) there is no macro
+ *   interposition: every plain or atomic access to the array's slots and fields, its rw-lock, the
+ *   registry's max_id, list lock and entries is a scheduling point. */
 #define BUILDING_PARSEC 1
+#if defined(VERIF_RACE)
+/* race-exploration build: compiled by clang -fsanitize=thread and linked with tsanrt.c, every access
+ * (plain or atomic) to the registered shared bytes yields; no macro interposition */
+extern void race_share(const void *p, unsigned long len); extern void race_reset(void);
+#else
+#include "interpose.h"      /* every parsec_atomic_* RMW / lock / unlock below is a scheduling point */
+#endif
+#include "cosched.h"
+#include <time.h>
 #include "parsec/class/parsec_object.c"
 #include "parsec/class/parsec_list.c"
+#define nanosleep(a, b) (cos_spin(), 0)     /* wait loops of the ticket rw-lock */
 #include "parsec/class/parsec_rwlock.c"
+#undef nanosleep
 #include "parsec/class/info.h"
 #include "hcommon.h"
 #include <stdarg.h>
@@ -132,7 +155,106 @@ static long fld(char **p, int base) {          /* next ':'-separated field */
     char *e; unsigned long v = strtoul(s, &e, base); *p = e; return (long)v;
 }
 
+/* ---- T-sched: coroutines on one array ------------------------------------------------ */
+#define SMAXT 8
+#define SMAXOPS 16
+typedef struct { char k; int i; uintptr_t v, old, ret, made; uintptr_t dead[4]; int ndead; } sop_t;
+typedef struct { int nops, cur, nctor; sop_t ops[SMAXOPS]; } sthr_t;
+static sthr_t ST[SMAXT];
+static int s_ids[MAXN];
+static parsec_info_object_array_t s_arr;
+
+static void *s_ctor(void *obj, void *cons_data) {
+    (void)obj; int t = cos_self(); uintptr_t c = (uintptr_t)cons_data;
+    if (c == 1 || t < 0) return NULL;
+    sthr_t *T = &ST[t]; int k = ++T->nctor;
+    uintptr_t val = 0xC000000000000000ULL + c * 65536ULL + (uintptr_t)(t + 1) * 256ULL + (uintptr_t)k;
+    T->ops[T->cur].made = val;
+    return (void *)val;
+}
+static void s_dtor(void *elt, void *des_data) {
+    (void)des_data; int t = cos_self(); if (t < 0) return;
+    sop_t *o = &ST[t].ops[ST[t].cur]; if (o->ndead < 4) o->dead[o->ndead++] = (uintptr_t)elt;
+}
+static void s_worker(void *arg) {
+    int t = (int)(intptr_t)arg; sthr_t *T = &ST[t];
+    for (int j = 0; j < T->nops; j++) {
+        sop_t *o = &T->ops[j]; T->cur = j;
+        void *r;                                 /* the result is complete before it is stored */
+        if (o->k == 'T') r = parsec_info_test_and_set(&s_arr, s_ids[o->i], (void *)o->v, (void *)o->old);
+        else if (o->k == 'S') r = parsec_info_set(&s_arr, s_ids[o->i], (void *)o->v);
+        else r = parsec_info_get(&s_arr, s_ids[o->i]);
+        o->ret = (uintptr_t)r;
+        if (j + 1 < T->nops) cos_yield();        /* an operation boundary is a step boundary */
+    }
+}
+static void do_sched(char *line) {
+    static long sched[8192];
+    char *bar1 = strchr(line, '|'), *bar2 = bar1 ? strchr(bar1 + 1, '|') : NULL;
+    if (!bar1 || !bar2) { emit("<bad case>"); flush_out(); return; }
+    *bar1 = 0; *bar2 = 0;
+    char *p = line + 5; int n = (int)strtol(p, &p, 10);
+    if (n < 1 || n > MAXN) { emit("<bad case>"); flush_out(); return; }
+    PARSEC_OBJ_CONSTRUCT(&nfo, parsec_info_t);
+    for (int i = 0; i < MAXN; i++) snprintf(name_buf[i], sizeof name_buf[i], "n%d", i);
+    for (int i = 0; i < n; i++) {
+        long c = strtol(p, &p, 10); if (*p == ':') p++; long d = strtol(p, &p, 10);
+        s_ids[i] = parsec_info_register(&nfo, cname(i), d ? s_dtor : NULL, NULL, c ? s_ctor : NULL,
+                                        (void *)(uintptr_t)c, NULL);
+    }
+    PARSEC_OBJ_CONSTRUCT(&s_arr, parsec_info_object_array_t);
+    parsec_info_object_array_init(&s_arr, &nfo, NULL);
+    int nt = 0; memset(ST, 0, sizeof ST);
+    char *save1 = NULL;
+    for (char *th = strtok_r(bar1 + 1, "/", &save1); th; th = strtok_r(NULL, "/", &save1)) {
+        if (nt >= SMAXT) { emit("<bad case>"); flush_out(); return; }
+        sthr_t *T = &ST[nt++]; char *save2 = NULL;
+        for (char *tok = strtok_r(th, " ", &save2); tok; tok = strtok_r(NULL, " ", &save2)) {
+            if (T->nops >= SMAXOPS) { emit("<bad case>"); flush_out(); return; }
+            sop_t *o = &T->ops[T->nops++]; char *q = tok + 1;
+            o->k = tok[0]; o->i = (int)fld(&q, 10);
+            if ((o->k != 'T' && o->k != 'S' && o->k != 'G') || o->i < 0 || o->i >= n || s_ids[o->i] < 0) { emit("<bad case>"); flush_out(); return; }
+            if (o->k != 'G') o->v = (uintptr_t)fld(&q, 16);
+            if (o->k == 'T') o->old = (uintptr_t)fld(&q, 16);
+        }
+    }
+    char *q = bar2 + 1; int ns = hc_ints(&q, sched, 8192);
+#if defined(VERIF_RACE)
+    race_reset();
+    race_share(&s_arr.known_infos, sizeof s_arr.known_infos);
+    race_share(&s_arr.info_objects, sizeof s_arr.info_objects);
+    race_share(&s_arr.rw_lock, sizeof s_arr.rw_lock);
+    if (s_arr.info_objects) race_share(s_arr.info_objects, sizeof(void *) * (size_t)s_arr.known_infos);
+    race_share(&nfo.max_id, sizeof nfo.max_id);
+    race_share((void *)&nfo.info_list.atomic_lock, sizeof nfo.info_list.atomic_lock);
+    for (parsec_list_item_t *it = PARSEC_LIST_ITERATOR_FIRST(&nfo.info_list);
+         it != PARSEC_LIST_ITERATOR_END(&nfo.info_list); it = PARSEC_LIST_ITERATOR_NEXT(it))
+        race_share(it, sizeof(parsec_info_entry_t));
+#endif
+    cos_reset();
+    for (int t = 0; t < nt; t++) cos_spawn(s_worker, (void *)(intptr_t)t);
+    int dl = cos_run(sched, ns, 1000);
+    for (int t = 0; t < nt; t++) {
+        emit("%st%d:", t ? " | " : "", t);
+        for (int j = 0; j < ST[t].nops; j++) {
+            sop_t *o = &ST[t].ops[j];
+            if (o->k == 'G') {
+                emit(" G=%lx,", (unsigned long)o->ret);
+                if (o->made) emit("%lx", (unsigned long)o->made); else emit("-");
+                emit(",["); for (int d = 0; d < o->ndead; d++) emit("%s%lx", d ? "," : "", (unsigned long)o->dead[d]); emit("]");
+            } else emit(" %c=%lx", o->k, (unsigned long)o->ret);
+        }
+    }
+    emit(" | slots: ");
+    for (int i = 0; i < s_arr.known_infos; i++) emit("%s%lx", i ? "," : "", (unsigned long)(uintptr_t)s_arr.info_objects[i]);
+    emit(" | steps:"); for (int t = 0; t < nt; t++) emit(" %d", cos_steps[t]);
+    emit(" | spins:"); for (int t = 0; t < nt; t++) emit(" %d", cos_spins[t]);
+    if (dl) emit(" <deadlock>");
+    flush_out();
+}
+
 static void do_case(char *line) {
+    if (!strncmp(line, "sched ", 6)) { do_sched(line); return; }
     PARSEC_OBJ_CONSTRUCT(&nfo, parsec_info_t);
     narr = 0; for (int i = 0; i < MAXN; i++) { held[i] = -1; snprintf(name_buf[i], sizeof name_buf[i], "n%d", i); }
     int distinct = 1, first = 1;
